@@ -128,6 +128,9 @@ func classify(via string, pv any) (string, string) {
 	case s == "Int overflow" || s == "integer overflow":
 		// cosmossdk.io/math range assertion (LegacyDec above 2^315, Int above 2^256) deep inside swap / liquidity arithmetic
 		return "math.range", "dec_overflow"
+	case strings.HasPrefix(s, "invalid denom") && strings.Contains(via, "swap."):
+		// a route denom that sdk.NewCoin rejects: Route.Validate (route.go) does not validate denoms
+		return "swap.route_denom", "invalid_denom"
 	case strings.Contains(s, "nil pointer"):
 		return via, "nil_deref"
 	case strings.Contains(s, "interface conversion"):
@@ -154,7 +157,11 @@ func (u *U) report(via, cls string, pv any, input []byte, extraCause string) (si
 		site, cause = via, "unbounded"
 	} else {
 		site, cause = classify(via, pv)
-		if extraCause != "" && cause == "nil_deref" {
+		if extraCause == "deep" {
+			if cause == "nil_deref" {
+				cause = "nil_deref_after_validation"
+			}
+		} else if extraCause != "" && cause == "nil_deref" {
 			site, cause = "Route.Validate", extraCause
 		} else if via == "Route.Validate" && cause == "nil_deref" && string(input) == "Rn" {
 			cause = "nil_receiver"
